@@ -76,19 +76,23 @@ def one_case(rng, role, own_offset_mod=None, peer_offset_mod=None, peer_kind=Non
         rand[i:i + 4] = pointer_bytes_for(own_offset_mod, rng)
     rand = bytes(rand)
     own_p1, own_d, own_off = lib_p1(role, rand[:1524])
-    peer_kind = peer_kind or rng.choice(["lib", "scheme1", "scheme2", "orig", "orig"])
+    peer_kind = peer_kind or rng.choice(["lib", "scheme1", "scheme2", "orig", "orig", "near"])
     pbody = bytearray(rng.bytes(1528))
     if peer_kind == "orig":
         peer_p1 = b"\x00\x00\x00\x00" + rng.choice([b"\x00\x00\x00\x00", bytes([9, 0, 124, 2])]) + bytes(pbody)
     else:
-        scheme = {"lib": 1 if peer_role == "client" else 2, "scheme1": 1, "scheme2": 2}[peer_kind]
+        scheme = {"lib": 1 if peer_role == "client" else 2, "scheme1": 1, "scheme2": 2, "near": rng.choice([1, 2])}[peer_kind]
         if peer_offset_mod is not None:
             i = 0 if scheme == 1 else 764
             pbody[i:i + 4] = pointer_bytes_for(peer_offset_mod, rng)
         head8 = None
         if rng.chance(1, 2):       # peers with other time / version fields, including all-zero ones
             head8 = rng.choice([b"\x00" * 4, rng.bytes(4)]) + rng.choice([b"\x00" * 4, bytes([9, 0, 124, 2]), bytes([10, 0, 32, 18]), bytes([0, 0, 0, 1]), rng.bytes(4)])
-        peer_p1, _, _ = make_p1(FP if peer_role == "client" else FMS, bytes(pbody), scheme, head8)
+        peer_p1, _, poff = make_p1(FP if peer_role == "client" else FMS, bytes(pbody), scheme, head8)
+        if peer_kind == "near":
+            # a digest that is wrong in exactly one byte (often the last, sometimes the first or any other): no valid digest, so an echo is due
+            j = rng.choice([31, 31, 0, 30, rng.below(32)])
+            q = bytearray(peer_p1); q[poff + j] ^= 1 << rng.below(8); peer_p1 = bytes(q)
     own_p2, signed = lib_p2(role, peer_p1, rand[1524:])
     # the peer's packet 2: echo of our packet 1 (original handshake) or a signed packet (any content: not verified by the library)
     if peer_kind == "orig" or rng.chance(1, 4):
